@@ -7,14 +7,20 @@ Bounded exhaustive input enumeration on the *real* TunnelExitSocket of a live ex
   hop, then ``exit_socket.sendto`` (tunnel -> outside) and the transports' ``protocol.datagram_received`` (outside ->
   tunnel) are driven directly with every payload of a product over the bytes the classifier inspects;
 * outer layer: a boundary set of payloads x destination kinds x sources of the tunnelled data goes end-to-end through
-  1- and 2-hop circuits (a fresh world per case).
+  1- and 2-hop circuits (a fresh world per case), including "previous hop moved" histories (the exit knows the previous
+  hop as a verified peer and an authentic signed datagram with its key arrives from another address);
+* configuration routes: two exit nodes built one after the other in one process through ipv8.configuration +
+  ipv8_service.IPv8 and through ipv8.loader, every ordered pair of flag configurations - each node must apply its own;
+* flag-change window: settings.peer_flags is reassigned at every loop iteration between the first data cell and the end
+  of the socket creation - what leaves must be allowed by the flags in force when it leaves.
 
 Oracles (reported under different keys):
   gate:*   given the classifier's own verdicts (could_be_bt / could_be_ipv8 evaluated by the harness) and the node's
            flags, emission happens iff the policy of the statement allows it (mc/ref/c06_exitpolicy.allowed)
   shape:*  the classifier verdicts agree with the reference shapes written from the BEPs the docstrings cite
   e2e:*, null-destination:*, open:*   the same gate end-to-end, nothing towards 0.0.0.0:0, the outside socket is only
-           opened by data from the previous hop's IP address
+           opened by data from the previous hop's IP address (= the address the circuit's create came from)
+  config:<route>:*, window:*   the gate under the node's own configuration / under the flags in force at emission
 """
 from __future__ import annotations
 
@@ -32,7 +38,7 @@ from ipv8.messaging.anonymization.tunnel import (
 )
 from ipv8.messaging.interfaces.udp.endpoint import UDPv4Address, UDPv6Address
 
-from .. import core
+from .. import core, simnet
 from ..ref import c06_exitpolicy as ref
 from ..tunnelworld import TunnelWorld
 
@@ -142,27 +148,41 @@ class Inner:
         self.w = w = TunnelWorld(("c06-inner", seed, flag_idx), {"O": set(PLAIN), "X": set(self.flags)},
                                  key_offset=seed % 8)
         try:
-            c = w.build_circuit("O", ["X"])
-            if c.state != CIRCUIT_STATE_READY:
-                raise HarnessError(f"1-hop circuit to an exit with flags {flag_str(self.flags)} did not become ready")
-            x = w.ov["X"]
-            if set(x.settings.peer_flags) != set(self.flags):
+            if set(w.ov["X"].settings.peer_flags) != set(self.flags):
                 raise HarnessError("flag set not applied")
-            self.prefix = x.get_prefix()
-            self.cid = c.circuit_id
-            # one packet of the tunnel overlay itself (allowed under every flag set) from the previous hop opens the socket
-            w.send_out("O", c, tuple(OUT4), self.prefix + b"\xee" + b"\x00" * 8)
-            w.flush()
-            self.es = es = x.exit_sockets[c.circuit_id]
-            if not (es.enabled and es.transport_ipv4 is not None and es.transport_ipv6 is not None):
-                raise HarnessError("exit socket not open after data from the previous hop")
-            self.t4, self.t6 = es.transport_ipv4, es.transport_ipv6
-            self.o_addr = tuple(w.nodes["O"].address)
-            self.x_addr = tuple(w.nodes["X"].address)
-            self._clear()
+            self._open("X")
         except BaseException:
             w.close()
             raise
+
+    @classmethod
+    def attach(cls, w: TunnelWorld, xname: str, flags) -> "Inner":  # noqa: ANN001
+        """The same driver on an exit node of an existing world; `flags` is what the reference policy is computed from."""
+        self = cls.__new__(cls)
+        self.flag_idx = FLAGSETS.index(tuple(sorted(flags))) if tuple(sorted(flags)) in FLAGSETS else -1
+        self.flags = frozenset(flags)
+        self.w = w
+        self._open(xname)
+        return self
+
+    def _open(self, xname: str) -> None:
+        w = self.w
+        c = w.build_circuit("O", [xname])
+        if c.state != CIRCUIT_STATE_READY:
+            raise HarnessError(f"1-hop circuit to exit {xname} (policy flags {flag_str(self.flags)}) did not become ready")
+        x = w.ov[xname]
+        self.prefix = x.get_prefix()
+        self.cid = c.circuit_id
+        # one packet of the tunnel overlay itself (allowed under every flag set) from the previous hop opens the socket
+        w.send_out("O", c, tuple(OUT4), self.prefix + b"\xee" + b"\x00" * 8)
+        w.flush()
+        self.es = es = x.exit_sockets[c.circuit_id]
+        if not (es.enabled and es.transport_ipv4 is not None and es.transport_ipv6 is not None):
+            raise HarnessError("exit socket not open after data from the previous hop")
+        self.t4, self.t6 = es.transport_ipv4, es.transport_ipv6
+        self.o_addr = tuple(w.nodes["O"].address)
+        self.x_addr = tuple(w.nodes[xname].address)
+        self._clear()
 
     def _clear(self) -> None:
         self.t4.sent.clear()
@@ -441,7 +461,12 @@ if NULL_HOST is not None:
 SOURCES = ("previous-hop", "same-ip-other-port", "other-ip", "other-ip-same-port", "originator",
            # addresses that merely *look like* the previous hop's: its IP as a textual suffix / prefix / with a zero-padded
            # or widened octet - any comparison that is not an equality of the whole IP shows up here
-           "ip-textual-suffix", "ip-textual-prefix", "ip-octet-widened", "ipv6-mapped-look-alike")
+           "ip-textual-suffix", "ip-textual-prefix", "ip-octet-widened", "ipv6-mapped-look-alike",
+           # "previous hop moved": the exit knows the previous hop as a verified peer; an authentic signed datagram with
+           # that key (an introduction-request) reaches the exit from another address - after the circuit was joined or
+           # before its create arrived - and then the data cell comes from that address.  The circuit's previous hop stays
+           # the address its create came from.
+           "moved-v4-after-join", "moved-v6-after-join", "moved-v4-before-create", "moved-v6-before-create")
 
 
 def outer_cases(thorough: bool) -> list[tuple]:
@@ -459,6 +484,31 @@ def outer_cases(thorough: bool) -> list[tuple]:
     return cases
 
 
+MOVED_SOURCES = tuple(sn for sn in SOURCES if sn.startswith("moved-"))
+
+
+def _signed_datagram_from(w: TunnelWorld, prev_name: str, moved) -> tuple:  # noqa: ANN001
+    """
+    An authentic introduction-request of the previous hop reaches the exit X from the address `moved`.
+    Returns (harness problem key or None, text, the exit's Network now lists the peer at `moved`).
+    """
+    x_node = w.nodes["X"]
+    key_bin = w.nodes[prev_name].my_peer.public_key.key_to_bin()
+    known = x_node.network.get_verified_by_public_key_bin(key_bin)
+    if known is None:
+        return "harness:previous-hop-not-verified", f"the exit does not know {prev_name} as a verified peer", False
+    n0 = len(w.inflight)
+    w.nodes[prev_name].run(w.ov[prev_name].walk_to, x_node.address)
+    w.loop.settle()
+    mine = [d for d in w.inflight[n0:] if tuple(d.dst) == tuple(x_node.address)]
+    if len(mine) != 1:
+        return "harness:no-signed-datagram", f"walk_to produced {len(mine)} datagrams towards the exit", False
+    w.inflight.remove(mine[0])
+    w.inject(moved, tuple(x_node.address), mine[0].data)
+    w.flush()
+    return None, "", tuple(known.address) == tuple(moved)
+
+
 def run_outer(case: tuple, seed: int) -> tuple[list, tuple]:
     """One fresh world.  Returns ([(key, what)], observation)."""
     fi, hops, pname, dname, sname = case
@@ -468,18 +518,29 @@ def run_outer(case: tuple, seed: int) -> tuple[list, tuple]:
                     key_offset=seed % 8)
     try:
         w.loop.resolver.update(RESOLVER)
+        x, o = w.ov["X"], w.ov["O"]
+        x_addr = tuple(w.nodes["X"].address)
+        prev_name = "O" if hops == 1 else "R"
+        prev = tuple(w.nodes[prev_name].address)
+        moved = None
+        rebound = None
+        if sname.startswith("moved-"):
+            moved = UDPv6Address("2001:db8::66", prev[1]) if "-v6-" in sname else UDPv4Address("6.6.6.6", prev[1])
+            if sname.endswith("before-create"):
+                rebound = _signed_datagram_from(w, prev_name, moved)
         c = w.build_circuit("O", ["X"] if hops == 1 else ["R", "X"])
         if c.state != CIRCUIT_STATE_READY:
             return viol, ("not-built", fi, hops)
-        x, o = w.ov["X"], w.ov["O"]
         prefix = x.get_prefix()
         data = outer_payloads(prefix)[pname]
         dest, finals, dkind = DESTS[dname]
-        x_addr = tuple(w.nodes["X"].address)
-        prev = tuple(w.nodes["O" if hops == 1 else "R"].address)
         es = next(iter(x.exit_sockets.values()))
-        if tuple(es.hop.address) != prev:
+        if moved is None and tuple(es.hop.address) != prev:
             return [("harness:previous-hop", f"exit socket hop {es.hop.address} != {prev}")], ("harness",)
+        if moved is not None and sname.endswith("after-join"):
+            rebound = _signed_datagram_from(w, prev_name, moved)
+        if rebound is not None and rebound[0]:
+            return [(rebound[0], rebound[1])], ("harness",)
         v = classify(data)
         bt, ipv8, own = v[3], v[4], data[:22] == prefix
         allowed = ref.allowed(bt, ipv8, own, flags)
@@ -527,13 +588,13 @@ def run_outer(case: tuple, seed: int) -> tuple[list, tuple]:
                    "ip-textual-suffix": ("1" + prev[0], prev[1]),                       # 2.2.2.2 -> 12.2.2.2
                    "ip-textual-prefix": (prev[0] + "1", prev[1]),                       # 2.2.2.2 -> 2.2.2.21
                    "ip-octet-widened": (prev[0].replace(".", ".1", 1), prev[1]),        # 2.2.2.2 -> 2.12.2.2
-                   "ipv6-mapped-look-alike": ("2001:db8::" + prev[0], prev[1])}[sname]
+                   "ipv6-mapped-look-alike": ("2001:db8::" + prev[0], prev[1])}.get(sname, moved)
             w.inject(src, x_addr, captured.data)
             w.flush()
             w.run_for(1.0)
             if src[0] != prev[0]:
                 if w.loop.transports or es.enabled:
-                    viol.append((f"open:foreign-source:{sname}",
+                    viol.append((f"open:foreign-source:{'moved-previous-hop' if moved is not None else sname}",
                                  f"{desc}: the data cell arrived from {src} (previous hop is {prev}) and the exit opened "
                                  f"{len(w.loop.transports)} outside sockets (enabled={es.enabled}); "
                                  f"emitted {[(d.hex()[:24], a) for _, d, a in emissions()]}"))
@@ -595,7 +656,8 @@ def run_outer(case: tuple, seed: int) -> tuple[list, tuple]:
                 viol.append((key, f"{desc}: injected {[(s, len(d)) for s, d in expect_got]} from outside, the originator "
                                   f"received {[(s, d.hex()[:24] if isinstance(d, bytes) else d) for s, d in got]}"))
         obs = ("ran", fi, hops, pname, dname, sname, cls, allowed, opened_by_a, len(w.loop.transports),
-               tuple(sorted((f, len(d), a) for f, d, a in em)), n_in, len(got), len(w.loop.exceptions))
+               tuple(sorted((f, len(d), a) for f, d, a in em)), n_in, len(got), len(w.loop.exceptions),
+               None if rebound is None else rebound[2])
         return viol, obs
     finally:
         w.close()
@@ -607,6 +669,249 @@ def run_outer_cases(chunk: list) -> list:
         v, obs = run_outer(tuple(case), _SEED)
         out.append((tuple(case), v, obs))
     return out
+
+
+# ---------------------------------------------------------------------------------------------------------------------
+# configuration routes: the policy of a node is the one THIS node was configured with
+# ---------------------------------------------------------------------------------------------------------------------
+# Two exit nodes are built one after the other in one process, the way deployments do it, each with its own flag
+# configuration (one of the 8 flag sets, or None = the operator does not mention peer_flags at all).  Each node must then
+# apply the policy of its *own* configuration, whatever was configured first.
+
+CONFIG_ROUTES = (
+    "service-default",   # get_default_configuration(), edit the HiddenTunnelCommunity entry's "initialize", ipv8_service.IPv8
+    "service-builder",   # ConfigBuilder() (starts from the default configuration), same edit, finalize(), IPv8
+    "loader-item",       # ipv8.loader: launcher.community_kwargs["peer_flags"] = ... (item assignment), IPv8CommunityLoader
+    "loader-update",     # launcher.community_kwargs.update(...)
+    "loader-assign",     # launcher.community_kwargs = {...}
+    "loader-get-kwargs",  # launcher class overriding get_kwargs
+)
+CONFIG_PAYLOADS = ("dht-ping", "utp-syn", "tracker-connect", "ipv8-other", "ipv8-own", "bt+ipv8", "junk")
+
+
+def _adopt(node, o) -> None:  # noqa: ANN001
+    """Give a deployment-built overlay the simulated node's address (what Node.add_overlay does for the attr route)."""
+    o.my_peer.address = node.address
+    node.my_peer = o.my_peer
+    node.network = o.network
+    o.my_estimated_wan = node.address
+    o.my_estimated_lan = node.address
+    node.overlays.append(o)
+
+
+def _build_configured(route: str, node, flags):  # noqa: ANN001, ANN202
+    """Build a tunnel overlay for `node` through `route`; flags None = peer_flags not mentioned by the operator."""
+    import base64  # noqa: PLC0415
+    from types import SimpleNamespace  # noqa: PLC0415
+
+    from .. import fixtures  # noqa: PLC0415
+    other = {"min_circuits": 0, "max_circuits": 0}      # what else this operator sets (never peer flags)
+    if route.startswith("service"):
+        from ipv8.configuration import ConfigBuilder, get_default_configuration  # noqa: PLC0415
+        from ipv8_service import IPv8  # noqa: PLC0415
+        key_b64 = base64.b64encode(fixtures.private_bin(node.key_index)).decode()
+        if route == "service-default":
+            configuration = get_default_configuration()
+            configuration["logger"] = {"level": "CRITICAL"}
+            for key in configuration["keys"]:
+                key["file"] = ""
+                key["bin"] = key_b64
+        else:
+            builder = ConfigBuilder().set_log_level("CRITICAL")
+            alias = builder.config["keys"][0]["alias"]
+            builder.add_key_from_bin(alias, key_b64)
+            configuration = builder.config
+        configuration["overlays"] = [ov for ov in configuration["overlays"] if ov["class"] == "HiddenTunnelCommunity"]
+        for ov in configuration["overlays"]:
+            ov["walkers"], ov["bootstrappers"], ov["on_start"] = [], [], []
+            ov["initialize"].update(other)
+            if flags is not None:
+                ov["initialize"]["peer_flags"] = set(flags)
+        if route == "service-builder":
+            configuration = builder.finalize()
+        ipv8 = IPv8(configuration, endpoint_override=node.endpoint)
+        o = ipv8.overlays[0]
+    else:
+        from ipv8.loader import CommunityLauncher, IPv8CommunityLoader  # noqa: PLC0415
+        from ipv8.messaging.anonymization.community import TunnelCommunity  # noqa: PLC0415
+        from ipv8.peerdiscovery.network import Network  # noqa: PLC0415
+        conf = dict(other)
+        if flags is not None:
+            conf["peer_flags"] = set(flags)
+
+        class TunnelLauncher(CommunityLauncher):
+            def get_overlay_class(self):  # noqa: ANN202
+                return TunnelCommunity
+
+            def get_my_peer(self, ipv8, session):  # noqa: ANN001, ANN202, ARG002
+                return node.my_peer
+
+        if route == "loader-get-kwargs":
+            class KwargsLauncher(TunnelLauncher):
+                def get_kwargs(self, session):  # noqa: ANN001, ANN202, ARG002
+                    return dict(conf)
+            launcher = KwargsLauncher()
+        else:
+            launcher = TunnelLauncher()
+            if route == "loader-item":
+                for k, v in conf.items():
+                    launcher.community_kwargs[k] = v
+            elif route == "loader-update":
+                launcher.community_kwargs.update(conf)
+            else:
+                launcher.community_kwargs = dict(conf)
+        provider = SimpleNamespace(endpoint=node.endpoint, network=Network(), overlays=[], strategies=[])
+        loader = IPv8CommunityLoader()
+        loader.set_launcher(launcher)
+        loader.load(provider, SimpleNamespace())
+        o = provider.overlays[0]
+    _adopt(node, o)
+    return o
+
+
+def config_cases(thorough: bool) -> list[tuple]:
+    specs = [None, *range(8)]
+    pairs = [(a, b) for a in specs for b in specs]
+    return [(route, a, b) for route in CONFIG_ROUTES for a, b in pairs]
+
+
+def run_config(case: tuple, seed: int) -> tuple[list, tuple]:
+    route, first, second = case
+    viol: list = []
+    w = TunnelWorld(("c06-config", seed), {"O": set(PLAIN)}, key_offset=seed % 8)
+    try:
+        obs = []
+        for i, (name, spec) in enumerate((("X1", first), ("X2", second))):
+            node = w.add_node(name, seed % 8 + 1 + i)
+            configured = None if spec is None else FLAGSETS[spec]
+            w.ov[name] = node.run(_build_configured, route, node, configured)
+        simnet.introduce(w, list(w.ov.values()))
+        for name, spec in (("X1", first), ("X2", second)):
+            policy = frozenset(ref.configured_flags(None if spec is None else FLAGSETS[spec]))
+            which = "first" if name == "X1" else "second"
+            other = second if name == "X1" else first
+            try:
+                inner = Inner.attach(w, name, policy)
+            except HarnessError as e:
+                viol.append(("harness:config-setup", f"{route}: {e}"))
+                continue
+            effective = set(w.ov[name].settings.peer_flags)
+            desc = (f"route {route}: {which} instance configured with "
+                    f"{'no peer_flags (defaults)' if spec is None else flag_str(FLAGSETS[spec])}, the other instance with "
+                    f"{'no peer_flags' if other is None else flag_str(FLAGSETS[other])}; policy of this node "
+                    f"{flag_str(policy)}, its settings now say {flag_str(effective)}")
+            pl = outer_payloads(inner.prefix)
+            row = []
+            for pname in CONFIG_PAYLOADS:
+                data = pl[pname]
+                v = classify(data)
+                want = ref.allowed(v[3], v[4], data[:22] == inner.prefix, policy)
+                for d in ("out4", "in4"):
+                    emitted, problem = inner.observe(data, d)
+                    row.append(emitted)
+                    if emitted != want or (emitted and problem):
+                        kind = "emitted-forbidden" if emitted and not want else \
+                            "dropped-allowed" if want and not emitted else "altered"
+                        viol.append((f"config:{route}:{kind}", f"{desc}: {pname} ({data[:24].hex()}..) {d}: emitted={emitted}, "
+                                                                f"this node's configuration says {want} {problem}"))
+            obs.append((which, spec, tuple(row)))
+        return viol, ("ran", route, tuple(obs))
+    finally:
+        w.close()
+
+
+def run_config_cases(chunk: list) -> list:
+    return [(tuple(c), *run_config(tuple(c), _SEED)) for c in chunk]
+
+
+# ---------------------------------------------------------------------------------------------------------------------
+# flag changes while the outside sockets are being created
+# ---------------------------------------------------------------------------------------------------------------------
+# The first data of a circuit enables the exit socket; the sockets are created by a task over the next loop iterations and
+# packets wait in the socket's queue meanwhile.  The operator changes settings.peer_flags (F0 -> F1) before loop iteration
+# k; a second batch of packets is processed in iteration a (a = 1: together with the first).  Whatever leaves a socket in iteration i must be allowed by the
+# flags in force during iteration i.
+
+WINDOW_ITERATIONS = 8        # the unchanged tree is quiescent after 5 iterations; 8 leaves room
+WINDOW_BATCH_A = (("dht-ping", "ipv4"), ("ipv8-other", "ipv4"), ("ipv8-own", "ipv4"), ("bt+ipv8", "ipv4"), ("junk", "ipv4"))
+WINDOW_BATCH_B = (("utp-syn", "ipv6"), ("ipv8-other", "ipv6"), ("ipv8-own", "ipv6"), ("tracker-connect", "ipv6"),
+                  ("junk", "ipv6"))       # 10 packets in all = the capacity of the socket's queue
+
+
+def window_cases(thorough: bool) -> list[tuple]:
+    ks = range(WINDOW_ITERATIONS)
+    arrivals = (1, 2, 3, 4, 5) if thorough else (1, 3)
+    return [(f0, f1, k, a) for f0 in range(8) for f1 in range(8) if f0 != f1 for k in ks for a in arrivals]
+
+
+def run_window(case: tuple, seed: int) -> tuple[list, tuple]:
+    f0, f1, k, a = case
+    viol: list = []
+    w = TunnelWorld(("c06-window", seed), {"O": set(PLAIN), "X": set(FLAGSETS[f0])}, key_offset=seed % 8)
+    try:
+        c = w.build_circuit("O", ["X"])
+        if c.state != CIRCUIT_STATE_READY:
+            return [("harness:window-setup", "circuit not ready")], ("harness",)
+        x = w.ov["X"]
+        prefix = x.get_prefix()
+        pl = outer_payloads(prefix)
+        in_force = frozenset(FLAGSETS[f0])
+        desc0 = (f"flags {flag_str(FLAGSETS[f0])} -> {flag_str(FLAGSETS[f1])} before loop iteration {k + 1}, second batch of "
+                 f"packets arrives in iteration {a}")
+
+        def send(batch) -> None:  # noqa: ANN001
+            for pname, dn in batch:
+                w.send_out("O", c, DESTS[dn][0], pl[pname])
+            while w.inflight:
+                w.deliver(0, settle=False)
+
+        seen = 0
+        emitted: list = []
+        trail = []
+        for i in range(1, WINDOW_ITERATIONS + 1):
+            if i - 1 == k:
+                w.nodes["X"].run(setattr, x.settings, "peer_flags", set(FLAGSETS[f1]))
+                in_force = frozenset(FLAGSETS[f1])
+            if i == 1:
+                send(WINDOW_BATCH_A)
+            if i == a:
+                send(WINDOW_BATCH_B)
+            if w.loop.has_work():
+                w.loop.iteration()
+            log = w.loop.outside_log
+            for _, data, addr in log[seen:]:
+                v = classify(data)
+                own = data[:22] == prefix
+                cls = ref.shape_class(v[3], v[4], own)
+                emitted.append((data, tuple(addr)))
+                trail.append((i, cls))
+                if not ref.allowed(v[3], v[4], own, in_force):
+                    viol.append((f"window:emitted-forbidden:{cls}",
+                                 f"{desc0}: in iteration {i}, with {flag_str(in_force)} in force, {data[:24].hex()}.. "
+                                 f"(bt={v[3]} ipv8={v[4]} own prefix={own}) left towards {tuple(addr)}"))
+                if ref.is_null_address(addr):
+                    viol.append(("null-destination:window", f"{desc0}: emission towards {tuple(addr)}"))
+            seen = len(log)
+        w.flush()
+        if len(w.loop.outside_log) != seen:
+            viol.append(("harness:window-too-short", f"{desc0}: emissions after {WINDOW_ITERATIONS} iterations"))
+        # packets allowed under both flag sets are allowed at every moment: they must have left, once
+        for pname, dn in WINDOW_BATCH_A + WINDOW_BATCH_B:
+            data = pl[pname]
+            v = classify(data)
+            own = data[:22] == prefix
+            if ref.allowed(v[3], v[4], own, FLAGSETS[f0]) and ref.allowed(v[3], v[4], own, FLAGSETS[f1]):
+                n = emitted.count((data, tuple(DESTS[dn][1][0])))
+                if n != 1:
+                    viol.append((f"window:{'dropped-allowed' if n == 0 else 'duplicated'}:{ref.shape_class(v[3], v[4], own)}",
+                                 f"{desc0}: {pname} to {dn} is allowed before and after the change, emitted {n} times"))
+        return viol, ("ran", tuple(trail))
+    finally:
+        w.close()
+
+
+def run_window_cases(chunk: list) -> list:
+    return [(tuple(c), *run_window(tuple(c), _SEED)) for c in chunk]
 
 
 def sample_checks(viols: dict) -> int:
@@ -643,6 +948,12 @@ def run(ctx: core.Ctx) -> core.Report:
         if a != b:
             core.eprint(f"C06: replay of {case} is not deterministic:\n {a}\n {b}")
             sys.exit(2)
+    wc = window_cases(ctx.thorough)
+    for case in (wc[0], wc[-1]):
+        a, b = run_window(case, _SEED), run_window(case, _SEED)
+        if a != b:
+            core.eprint(f"C06: replay of window case {case} is not deterministic:\n {a}\n {b}")
+            sys.exit(2)
 
     items = inner_items(ctx.thorough)
     # big items first so the pool drains evenly
@@ -677,6 +988,17 @@ def run(ctx: core.Ctx) -> core.Report:
     if not_built:
         outer_viols["harness:circuit-not-built"] = (f"{not_built} end-to-end cases could not build their circuit", None)
 
+    # configuration routes and the flag-change window (same bookkeeping: sorted cases, first case per key is canonical)
+    ccases, wcases = config_cases(ctx.thorough), window_cases(ctx.thorough)
+    extra_obs: dict[str, set] = {"config": set(), "window": set()}
+    for layer, fn, lcases in (("config", run_config_cases, ccases), ("window", run_window_cases, wcases)):
+        lres = core.pmap(fn, lcases, ctx.jobs, chunk=8)
+        for case, v, obs in sorted(lres, key=lambda r: tuple(-1 if x is None else x for x in r[0])):
+            extra_obs[layer].add(obs[1:] if layer == "window" else obs[2:])
+            for key, what in v:
+                if key not in outer_viols:
+                    outer_viols[key] = (what, {"layer": layer, "case": list(case), "seed": _SEED})
+
     violations = [core.Violation(k, w, rp) for k, (w, rp) in sorted(viols.items())]
     # the end-to-end layer repeats the gate check: keep its verdict only where the inner layer has not already reported
     # the same direction / kind / shape class (one defect, one key)
@@ -685,13 +1007,16 @@ def run(ctx: core.Ctx) -> core.Report:
 
     emitted_classes = [o for o in outcomes if o[4]]
     cov = {
-        "evaluations": inner_evals + len(cases),
-        "distinct_nontrivial": len(outcomes) + len(outer_obs),
+        "evaluations": inner_evals + len(cases) + len(ccases) * 2 * len(CONFIG_PAYLOADS) * 2
+        + len(wcases) * len(WINDOW_BATCH_A + WINDOW_BATCH_B),
+        "distinct_nontrivial": len(outcomes) + len(outer_obs) + len(extra_obs["config"]) + len(extra_obs["window"]),
         "rule": "one evaluation = one packet driven through the real TunnelExitSocket of a live exit node under one flag set "
                 "(inner layer: sendto / transport protocol datagram_received called directly; outer layer: one fresh "
                 "world, packet sent through a real 1- or 2-hop circuit and injected from outside); distinct_nontrivial = "
                 "distinct (flag set, classifier bt?, ipv8?, own prefix?, directions emitted) outcomes of the inner layer + distinct "
-                "(shape class, allowed?, sockets opened, emissions, cells back, ...) observations of the outer layer",
+                "(shape class, allowed?, sockets opened, emissions, cells back, ...) observations of the outer layer + distinct "
+                "per-node emission rows of the configuration-route layer + distinct (iteration, shape class) emission trails "
+                "of the flag-change-window layer (there one evaluation = one packet as well)",
         "exhaustive": True,
         "samples": [{"layer": "inner", "item": list(map(str, items[0]))},
                     {"layer": "inner", "item": list(map(str, items[-1]))},
@@ -722,6 +1047,23 @@ def run(ctx: core.Ctx) -> core.Report:
             "circuits_not_built": not_built,
             "numeric_null_host": NULL_HOST,
         },
+        "config_routes": {
+            "cases": len(ccases),
+            "routes": list(CONFIG_ROUTES),
+            "configurations": "ordered pairs over the 8 flag sets + 'peer_flags not mentioned' (9 x 9), two nodes built in "
+                              "that order in one process, each judged by its own configuration",
+            "payloads": list(CONFIG_PAYLOADS),
+            "directions": ["out4", "in4"],
+            "distinct_observations": len(extra_obs["config"]),
+        },
+        "flag_change_window": {
+            "cases": len(wcases),
+            "flag_pairs": "all 56 ordered pairs of different flag sets",
+            "change_before_iteration": [k + 1 for k in range(WINDOW_ITERATIONS)],
+            "second_batch_in_iteration": sorted({c[3] for c in wcases}),
+            "packets_per_case": len(WINDOW_BATCH_A + WINDOW_BATCH_B),
+            "distinct_observations": len(extra_obs["window"]),
+        },
         "well_formed_samples_checked": n_samples,
     }
     return core.Report(LEVEL, cov, violations, [
@@ -737,6 +1079,10 @@ def run(ctx: core.Ctx) -> core.Report:
         "'::' port 0 and 0.0.0.0 with a non-zero port are not null addresses for this check (the statement names 0.0.0.0:0)",
         "exceptions raised by sendto/datagram_received are not violations by themselves (C03 covers the receive path)",
         "crypto primitives trusted; PythonCryptoEndpoint only",
+        "the circuit's previous hop is the address its create came from; a node's policy is computed from the flags its own "
+        "operator configured (not mentioned = the documented default RELAY+SPEED_TEST); an emission is judged by the flags "
+        "in force in the loop iteration in which it leaves; after the socket is open the source of data cells is not judged "
+        "(the statement only restricts what opens it)",
     ])
 
 
@@ -761,6 +1107,12 @@ def replay(ctx: core.Ctx, data) -> list:  # noqa: ANN001
             check_gate(inner, raw, classify(raw), data["dir"], viols)
         finally:
             inner.close()
+    elif data["layer"] == "config":
+        v, _ = run_config(tuple(data["case"]), seed)
+        return [core.Violation(k, w) for k, w in v]
+    elif data["layer"] == "window":
+        v, _ = run_window(tuple(data["case"]), seed)
+        return [core.Violation(k, w) for k, w in v]
     else:
         v, _ = run_outer(tuple(data["case"]), seed)
         return [core.Violation(k, w) for k, w in v]
